@@ -17,8 +17,19 @@ def _dispatch(prop: str, tier: str):
         from . import breaker, policycheck
         return policycheck.check("C07", tier, breaker.check("C07", tier))
     if prop == "C10":
-        from . import budget
-        return budget.check(tier)
+        from . import budget, retrycheck
+        comp = budget.check(tier)
+        rep = retrycheck.check("C10", tier)
+        rep.violations = comp.violations + rep.violations
+        rep.drift = comp.drift + rep.drift
+        rep.t0 = comp.t0
+        cc = comp.coverage
+        rep.coverage["states"] += cc["states"]
+        rep.coverage["transitions"] += cc["transitions"]
+        rep.coverage["traces_validated_against_impl"] += cc["traces_validated_against_impl"]
+        rep.coverage["budget_component_level"] = {k: v for k, v in cc.items() if k != "samples"}
+        rep.coverage["samples"] = rep.coverage["samples"][:2] + cc["samples"][:1]
+        return rep
     if prop == "C18":
         from . import stratcheck
         return stratcheck.check(tier)
